@@ -151,8 +151,11 @@ def r3_count(ctx):
     reqs = [c for c in ast.walk(inj) if isinstance(c, ast.Call) and norm(c.func) == "env.request"]
     data = [c for c in reqs if any(k.arg == "count" and norm(k.value) == "1" for k in c.keywords)]
     docs = [c for c in reqs if any(k.arg == "count" and norm(k.value) == "[0, 1]" for k in c.keywords)]
-    ctx.check(len(data) == 1 and len(reqs) == len(data) + len(docs), NB, "BaseNode.inject_value", "a value injection asks for exactly one node in data mode",
-              detail=[norm(c) for c in reqs])
+    if not reqs:
+        ctx.form(False, NB, "BaseNode.inject_value", "a value injection asks for exactly one node in data mode", detail="no env.request(...) call in inject_value itself")
+    else:
+        ctx.check(len(data) == 1 and len(reqs) == len(data) + len(docs), NB, "BaseNode.inject_value", "a value injection asks for exactly one node in data mode",
+                  detail=[norm(c) for c in reqs])
     if data:
         st = data[0]
         while not isinstance(st, ast.stmt):
